@@ -219,5 +219,53 @@ func init() {
 		}
 		fmt.Fprintf(&e.out, "def staticPolicyCalls : List String := %s\n", q(staticCalls))
 		fmt.Fprintf(&e.out, "def otherPolicyCalls : List String := %s\n", q(otherCalls))
+
+		// ---- suppressBECPU: what the mode branches and the disabled branch call on r, and the arguments the budget gets
+		var quotaCalls, cpusetCalls, disabledCalls, budgetArgs []string
+		if fd := e.funcDecl(d, "CPUSuppress", "suppressBECPU"); fd == nil || fd.Body == nil {
+			e.fail("suppressBECPU not found")
+		} else {
+			rcalls := func(b ast.Node) []string {
+				var out []string
+				ast.Inspect(b, func(n ast.Node) bool {
+					if c, ok := n.(*ast.CallExpr); ok {
+						if f := norm(c.Fun); strings.HasPrefix(f, "r.") && strings.Count(f, ".") == 1 {
+							out = append(out, strings.TrimPrefix(f, "r."))
+						}
+					}
+					return true
+				})
+				return out
+			}
+			var visit func(n ast.Node) bool
+			visit = func(n ast.Node) bool {
+				switch v := n.(type) {
+				case *ast.IfStmt:
+					c := norm(v.Cond)
+					if strings.HasSuffix(c, "CPUSuppressPolicy==slov1alpha1.CPUCfsQuotaPolicy") {
+						quotaCalls = rcalls(v.Body)
+						if v.Else != nil {
+							cpusetCalls = rcalls(v.Else)
+						}
+						return false
+					}
+					if c == "disabled" {
+						disabledCalls = rcalls(v.Body)
+					}
+				case *ast.CallExpr:
+					if norm(v.Fun) == "r.calculateBESuppressCPU" {
+						for _, a := range v.Args {
+							budgetArgs = append(budgetArgs, norm(a))
+						}
+					}
+				}
+				return true
+			}
+			ast.Inspect(fd.Body, visit)
+		}
+		fmt.Fprintf(&e.out, "def roundQuotaModeCalls : List String := %s\n", q(quotaCalls))
+		fmt.Fprintf(&e.out, "def roundCpusetModeCalls : List String := %s\n", q(cpusetCalls))
+		fmt.Fprintf(&e.out, "def roundDisabledCalls : List String := %s\n", q(disabledCalls))
+		fmt.Fprintf(&e.out, "def roundBudgetArgs : List String := %s\n", q(budgetArgs))
 	}
 }
